@@ -135,10 +135,10 @@ SLICES_THOROUGH = [
      ["none"], [], False, ["cards", "cardsab"], ["none"]),
     ("nested4", 4, 3, ["agg", "task"], ["none", "labc", "be02", "dep", "beE", "bBe"], ["T"], ["none"], ["none"], [], False,
      ["cards"], ["none"]),
-    ("shadow4", 4, 3, ["agg", "task"], ["none", "lab", "dep"], ["T"], ["none"], ["none", "cons"], [], False,
+    ("shadow4", 4, 3, ["agg", "task"], ["none", "lab", "dep"], ["T"], ["none"], ["cons"], [], False,
      ["cards"], ["none"], ["same", "fresh"]),
     ("shadowv4", 4, 3, ["agg", "task"], ["none", "lab"], ["T"], ["none", "itx"], ["cons"], [], False,
-     ["itdef", "itcards"], ["none"], ["same", "fresh"]),
+     ["itcards"], ["none"], ["same", "fresh"]),
     ("incl3", 3, 2, ["agg", "inc"], ["none", "lb"], ["T", "iteq"], ["none", "flagit"], ["none"], ["s1", "s2", "s3", "s5"], False,
      ["flag"], ["none", "flagoff"]),
 ]
